@@ -2,6 +2,6 @@
 # tools_neutral_subset.sh <prefix> : all 20 checks on every neutral/<prefix>*
 # variant, 8 at a time; prints the rules that fire (each is a false alarm).
 cd "$(dirname "$0")"
-one() { d="$1"; r=$(./seedtest.sh $PWD/$d/patch.diff $(./bin/echverif list) 2>&1 | grep -E "^\[C[0-9]+\]   C" | sed -E 's/^\[C[0-9]+\]   (C[0-9A-Za-z.\-]+) .*/\1/' | sort -u | tr '\n' ' '); echo "$(basename $d): ${r:-clean}"; }
+one() { d="$1"; r=$(./seedtest.sh $PWD/$d/patch.diff $(${ECHVERIF:-./bin/echverif} list) 2>&1 | grep -E "^\[C[0-9]+\]   C" | sed -E 's/^\[C[0-9]+\]   (C[0-9A-Za-z.\-]+) .*/\1/' | sort -u | tr '\n' ' '); echo "$(basename $d): ${r:-clean}"; }
 export -f one
 ls -d neutral/$1*/ | sed 's:/$::' | xargs -P 8 -I{} bash -c 'one {}' | sort
